@@ -36,6 +36,8 @@ pub fn parse_kind(s: Option<&str>) -> io::ErrorKind {
 		Some("unexpected_eof") => io::ErrorKind::UnexpectedEof,
 		Some("broken_pipe") => io::ErrorKind::BrokenPipe,
 		Some("would_block") => io::ErrorKind::WouldBlock,
+		Some("timed_out") => io::ErrorKind::TimedOut,
+		Some("permission_denied") => io::ErrorKind::PermissionDenied,
 		_ => io::ErrorKind::Other,
 	}
 }
@@ -113,7 +115,9 @@ pub fn run_session(req: &Value) -> Value {
 				let sched = call.get("sched").map(parse_sched).unwrap_or(Sched::Full);
 				let fault = call.get("rfault").and_then(Value::as_u64).map(|k| k as usize);
 				let inner = SchedReader::new(&input, sched, fault)
-					.kind(parse_kind(call.get("rkind").and_then(Value::as_str)));
+					.kind(parse_kind(call.get("rkind").and_then(Value::as_str)))
+					.style(call.get("rstyle").and_then(Value::as_u64).unwrap_or(0) as u8)
+					.interrupt(call.get("rintr").and_then(Value::as_u64).map(|k| k as usize));
 				let r = TracingReader {
 					inner,
 					writer: writer.clone(),
